@@ -247,7 +247,7 @@ PROPS["C06"] = {
     "assumptions": [],
     "harnesses": [
         H(KU, "c06::c06_connect", _HR, "connect", ["handle_request"], cost=60),
-        H(KU, "c06::c06_announce", _HR, "announce", ["handle_request"], cost=200),
+        H(KU, "c06::c06_announce", _HR, "announce", ["handle_request"], tier="thorough", cost=900, mem_gb=44, timeout=3000),
         H(KU, "c06::c06_scrape_k1", _HR, "scrape 1 hash", ["handle_request"], cost=60),
         H(KU, "c06::c06_scrape_k3", _HR, "scrape 3 hashes", ["handle_request"], cost=100),
     ],
